@@ -10,7 +10,8 @@ Inductive gpc := GNone | GSelect | GInFn | GExited.
 Inductive spc := SIdle | SWaiting | SReturned.
 
 Inductive rev :=
-| EvStart | EvFnStart (idx : Z) | EvFnEnd | EvRestart | EvStopCalled | EvStopReturned | EvCancel | EvTick (idx : Z) | EvTimer.
+| EvStart | EvFnStart (idx : Z) | EvFnEnd | EvRestart | EvStopCalled | EvStopReturned | EvCancel | EvTick (idx : Z) | EvTimer
+| EvSched (idx : Z).          (* ghost: schedule idx was (re)started: new ticker, new timer *)
 
 Record rstate := {
   r_len : Z;                 (* number of schedules, >= 1 *)
@@ -46,7 +47,7 @@ Definition sched_start (s : rstate) (index : Z) (ev : list rev) : rstate :=
     {| r_len := r_len s; r_idx := index; r_tick_ready := false;
        r_timer_armed := index + 1 <? r_len s; r_timer_ready := false;
        r_restart_buf := r_restart_buf s; r_cancelled := r_cancelled s;
-       r_g := r_g s; r_stop := r_stop s; r_trace := ev ++ r_trace s |}.
+       r_g := r_g s; r_stop := r_stop s; r_trace := ev ++ EvSched index :: r_trace s |}.
 
 Definition upd_g (s : rstate) (g : gpc) (ev : list rev) : rstate :=
   {| r_len := r_len s; r_idx := r_idx s; r_tick_ready := r_tick_ready s; r_timer_armed := r_timer_armed s;
@@ -149,6 +150,33 @@ Definition rexec (fixed : bool) (s : rstate) (ls : list rlabel) : rstate :=
 Definition is_fn_start (e : rev) : bool := match e with EvFnStart _ => true | _ => false end.
 Definition is_fn_ev (e : rev) : bool := match e with EvFnStart _ | EvFnEnd => true | _ => false end.
 Definition is_tick (e : rev) : bool := match e with EvTick _ => true | _ => false end.
+Definition is_sched (e : rev) : bool := match e with EvSched _ => true | _ => false end.
+
+(* the events (newest first) since the latest (re)start of a schedule *)
+Fixpoint since_sched (tr : list rev) : list rev :=
+  match tr with
+  | [] => []
+  | EvSched _ :: _ => []
+  | e :: r => e :: since_sched r
+  end.
+
+(* the schedule whose ticker is live after the trace: the index of the latest (re)start *)
+Fixpoint active_sched (tr : list rev) : Z :=
+  match tr with
+  | [] => -1
+  | EvSched k :: _ => k
+  | _ :: r => active_sched r
+  end.
+
+(* every function start carries the index of the schedule active at that moment, and so does every tick *)
+Fixpoint idx_consistent (tr : list rev) : bool :=
+  match tr with
+  | [] => true
+  | EvFnStart k :: r => (k =? active_sched r) && idx_consistent r
+  | EvTick k :: r => (k =? active_sched r) && idx_consistent r
+  | _ :: r => idx_consistent r
+  end.
+
 Definition is_stop_returned (e : rev) : bool := match e with EvStopReturned => true | _ => false end.
 
 (* events (oldest first) that happen after the first StopReturned *)
@@ -201,3 +229,21 @@ Fixpoint chk_run (c : chk) (tr : list vev) : bool :=
 
 Definition runner_trace_ok (len : Z) (tr : list vev) : bool :=
   chk_run {| k_started := false; k_infn := false; k_min := 0; k_restart := false; k_stopped := false; k_len := len |} tr.
+
+(* Timed consequence of C18_tick_of_active_schedule under "timers and tickers never fire
+   early". Times are relative to an instant just before New() (which arms the first start-delay
+   timer). An epoch begins with New/Start (schedule 0 is started after its own start delay) or with a Restart (schedule 0 is started at once, no
+   earlier than the Restart call); within an epoch schedule k is started no earlier than the
+   start delays 1..k later, and its own ticker delivers its first tick one period after that.
+   An invocation carrying schedule k's frequency never happens before the earliest such
+   instant over all epochs. *)
+Definition sum_delays (delays : list Z) (from upto : Z) : Z :=
+  zsum (skipn (Z.to_nat from) (firstn (Z.to_nat (upto + 1)) delays)).
+
+Definition earliest_tick (delays freqs restarts : list Z) (k : Z) : Z :=
+  fold_left Z.min (map (fun t => t + sum_delays delays 1 k) restarts) (sum_delays delays 0 k)
+  + nth (Z.to_nat k) freqs 0.
+
+Definition runner_times_ok (delays freqs restarts : list Z) (starts : list (Z * Z)) : bool :=
+  forallb (fun kt => (0 <=? fst kt) && (fst kt <? Z.of_nat (length freqs)) &&
+                     (earliest_tick delays freqs restarts (fst kt) <=? snd kt)) starts.
